@@ -7,6 +7,7 @@ import (
 	"fmt"
 	"math"
 	"math/rand"
+	"os"
 	"runtime"
 	"runtime/debug"
 	"sort"
@@ -483,7 +484,11 @@ func guardRun(d gotime.Duration, f func()) guardResult {
 				if len(v) > 160 {
 					v = v[:160]
 				}
-				done <- guardResult{panicked: true, value: v, site: panicSiteOf(string(debug.Stack()))}
+				st := string(debug.Stack())
+				if os.Getenv("PBFUZZ_DUMP") == "panic" {
+					fmt.Fprintf(os.Stderr, "PANIC %s\n%s\n", v, st)
+				}
+				done <- guardResult{panicked: true, value: v, site: panicSiteOf(st)}
 			}
 		}()
 		f()
